@@ -23,8 +23,34 @@ pub struct HzSrc {
     plan: Rc<Vec<(f64, u64)>>,
     seg: usize,
     used: u64,
-    pulls: Rc<Cell<u64>>,
+    pulls: Pulls,
     exh: i64,
+}
+/// pull counter: registered with the execution (shared) or private to a clone (no allocation on clone)
+enum Pulls {
+    Shared(Rc<Cell<u64>>),
+    Own(Cell<u64>),
+}
+impl Pulls {
+    fn get(&self) -> u64 {
+        match self {
+            Pulls::Shared(c) => c.get(),
+            Pulls::Own(c) => c.get(),
+        }
+    }
+    fn bump(&self) {
+        match self {
+            Pulls::Shared(c) => c.set(c.get() + 1),
+            Pulls::Own(c) => c.set(c.get() + 1),
+        }
+    }
+}
+/// A clone continues the same programme from the same position with a pull counter OF ITS OWN (so that
+/// looking ahead through a cloned oscillator does not disturb the counts logged for the original).
+impl Clone for HzSrc {
+    fn clone(&self) -> Self {
+        HzSrc { plan: self.plan.clone(), seg: self.seg, used: self.used, pulls: Pulls::Own(Cell::new(self.pulls.get())), exh: self.exh }
+    }
 }
 /// what a source with threshold `exh` that has been pulled `pulls` times answers to `is_exhausted()`
 fn reports_exhausted(exh: i64, pulls: u64) -> bool {
@@ -36,7 +62,7 @@ impl Signal for HzSrc {
         reports_exhausted(self.exh, self.pulls.get())
     }
     fn next(&mut self) -> f64 {
-        self.pulls.set(self.pulls.get() + 1);
+        self.pulls.bump();
         while self.seg < self.plan.len() && self.used >= self.plan[self.seg].1 {
             self.seg += 1;
             self.used = 0;
@@ -87,7 +113,7 @@ fn build_hz(rate: f64, plan: Vec<(f64, u64)>, exh: i64) -> Set<Hz<HzSrc>> {
     let src = |p: &Rc<Vec<(f64, u64)>>, reg: &mut Vec<Rc<Cell<u64>>>| {
         let c = Rc::new(Cell::new(0));
         reg.push(c.clone());
-        HzSrc { plan: p.clone(), seg: 0, used: 0, pulls: c, exh }
+        HzSrc { plan: p.clone(), seg: 0, used: 0, pulls: Pulls::Shared(c), exh }
     };
     let phase = signal::rate(rate).hz(src(&plan, &mut pulls)).phase();
     let sine = signal::rate(rate).hz(src(&plan, &mut pulls)).sine();
@@ -122,9 +148,33 @@ fn hz_of(a: &Value) -> (f64, i64) {
     (unf64(&a["hz"]), -1)
 }
 
-fn run_set<S: Step>(out: &mut Out, mut set: Set<S>, ops: &[Value], const_hz: Option<(f64, i64)>) {
+fn run_set<S: Step + Clone + Signal<Frame = f64>>(out: &mut Out, mut set: Set<S>, ops: &[Value], const_hz: Option<(f64, i64)>) {
     for op in ops {
         let ev = op["ev"].as_str().unwrap();
+        if ev == "peek" {
+            // look ahead m frames through CLONES of every oscillator, each consumed by the provided
+            // `Signal::take` on the concrete type; the originals are not touched
+            let m = op["a"]["m"].as_u64().unwrap() as usize;
+            let mut v: Vec<Vec<f64>> = (0..6).map(|_| Vec::with_capacity(m)).collect();
+            let (r, h, _) = measured(|| {
+                catch(|| {
+                    v[0].extend(set.phase.clone().take(m));
+                    v[1].extend(set.stepper.clone().take(m));
+                    v[2].extend(set.sine.clone().take(m));
+                    v[3].extend(set.saw.clone().take(m));
+                    v[4].extend(set.square.clone().take(m));
+                    v[5].extend(set.simplex.clone().take(m));
+                })
+            });
+            let arr = |x: &Vec<f64>| Value::Array(x.iter().map(|y| f64f(*y)).collect());
+            let r = match r {
+                None => r_panic(),
+                Some(()) => r_val(json!({"ph": arr(&v[0]), "q": arr(&v[1]), "sine": arr(&v[2]), "saw": arr(&v[3]),
+                    "square": arr(&v[4]), "simplex": arr(&v[5])})),
+            };
+            out.ev("peek", json!({"m": m}), r, json!({"ok": true, "pulls": counts(&set.pulls)}), h);
+            continue;
+        }
         let (hz, hzi) = const_hz.unwrap_or_else(|| hz_of(&op["a"]));
         match ev {
             "next" => {
@@ -214,7 +264,7 @@ pub fn osc_exec(out: &mut Out, ex: &[Value]) {
     let exh = if mode == "hz" { cfg["exh"].as_i64().unwrap_or(-1).max(-1) } else { -1 };
     let cfg_out = json!({"mode": mode, "rate": f64f(rate), "ratei": ratei, "exh": exh});
     if mode == "const" {
-        let first = if ops.is_empty() { (0.0, 0) } else { hz_of(&ops[0]["a"]) };
+        let first = ops.iter().find(|op| op["ev"] != "peek").map(|op| hz_of(&op["a"])).unwrap_or((0.0, 0));
         match catch(|| build_const(rate, first.0)) {
             None => out.line(&json!({"ev":"reset","comp":"osc","cfg":cfg_out,"r":r_panic(),"o":{"ok":false}})),
             Some(set) => {
@@ -225,6 +275,7 @@ pub fn osc_exec(out: &mut Out, ex: &[Value]) {
     } else {
         let plan: Vec<(f64, u64)> = ops
             .iter()
+            .filter(|op| op["ev"] != "peek")
             .map(|op| (hz_of(&op["a"]).0, if op["ev"] == "agg" { op["a"]["n"].as_u64().unwrap() } else { 1 }))
             .collect();
         match catch(|| build_hz(rate, plan, exh)) {
@@ -267,6 +318,14 @@ pub fn noise_exec(out: &mut Out, ex: &[Value]) {
                 let okc = c.is_some();
                 inst[i] = c;
                 out.ev("clone", a.clone(), if okc { r_unit() } else { r_panic() }, json!({"ok": true}), [0, 0, 0]);
+            }
+            "peek" => {
+                // the next m values of a CLONE of the instance, through the provided `Signal::take`
+                let m = a["m"].as_u64().unwrap() as usize;
+                let mut v: Vec<f64> = Vec::with_capacity(m);
+                let (r, h, _) = measured(|| catch(|| v.extend(inst[i].as_ref().expect("instance").clone().take(m))));
+                let r = if r.is_some() { r_val(Value::Array(v.iter().map(|y| f64f(*y)).collect())) } else { r_panic() };
+                out.ev("peek", a.clone(), r, json!({"ok": true}), h);
             }
             "restart" => {
                 let c = catch(|| signal::noise(seed));
@@ -454,5 +513,25 @@ pub fn gen(rng: &mut Rng, tier: &str, execs: &mut Vec<Vec<Value>>) {
             json!({"ev":"reset","comp":"noise","cfg":{"seed": big_u(s as u128)}}),
             json!({"ev":"agg","a":{"inst":0,"n": long}}),
         ]);
+    }
+    // round 4: look-aheads through clones (`peek`), at random places of every other per-frame execution
+    // (osc: clones of all oscillators read through Signal::take; noise: a clone of one instance)
+    for ex in execs.iter_mut() {
+        let comp = ex[0]["comp"].as_str().unwrap().to_string();
+        if ex.len() < 4 || ex.iter().any(|e| e["ev"] == "agg") || !rng.chance(1, 2) {
+            continue;
+        }
+        for _ in 0..(1 + rng.below(2)) {
+            let at = 1 + rng.below(ex.len() as u64 - 1) as usize;
+            let m = 1 + rng.below(8);
+            let op = if comp == "osc" {
+                json!({"ev":"peek","a":{"m":m}})
+            } else {
+                // only instances that exist at that point: 0 always; 1, 2 after the clone / restart lines
+                let made = ex[..at].iter().filter(|e| e["ev"] == "clone" || e["ev"] == "restart").count() == 2;
+                json!({"ev":"peek","a":{"inst": if made { rng.below(3) } else { 0 }, "m": m}})
+            };
+            ex.insert(at, op);
+        }
     }
 }
